@@ -28,7 +28,7 @@ def FLOORS(tier):
          "solve_bruteforce-calls": 250 if q else 8000, "solve_bruteforce-all_solutions-calls": 60 if q else 2500, "SetCover:log_trick=True": 10, "SetCover:log_trick=False": 10,
          "JobSequencing:log_trick=True": 10, "JobSequencing:log_trick=False": 10, "weights:default": 100,
          "weights:just-above-threshold": 100, "spin-input-decoded": 300,
-         "VertexCover:duplicate-orientation-or-self-loop": 6}
+         "VertexCover:duplicate-orientation-or-self-loop": 6, "SetCover:star-overlap": 6}
     for c in CLASSES:
         f["class:" + c] = 30 if q else 1000
     return f
@@ -45,8 +45,12 @@ def grounds(vals):
 
 
 def containers(rng, x, n):
-    """the same assignment as list / tuple / dict"""
-    c = rng.choice(["list", "tuple", "dict"])
+    """the same assignment as list / tuple / dict (a dict's keys need not have been inserted in ascending order)"""
+    c = rng.choice(["list", "tuple", "dict", "dict-shuffled"])
+    if c == "dict-shuffled":
+        items = list(enumerate(x))
+        rng.shuffle(items)
+        return dict(items)
     return list(x) if c == "list" else (tuple(x) if c == "tuple" else dict(enumerate(x)))
 
 
@@ -128,6 +132,18 @@ def do_SetCover(ctx, rng, w, bad, call):
     N = rng.randint(1, 4)
     Ul = sorted(U, key=str)
     V = [set(rng.sample(Ul, rng.randint(1, nU))) for _ in range(N)]
+    if rng.random() < 0.2:
+        # star-like overlap: one common element in every subset plus private elements (multiplicity > largest subset size)
+        k = rng.randint(2, 3)
+        U = {"e"} | set(range(1, k + 1)) if rng.random() < 0.5 else {0} | {"p%d" % i for i in range(1, k + 1)}
+        core_ = "e" if "e" in U else 0
+        priv = sorted(U - {core_}, key=str)
+        V = [{core_, x} for x in priv]
+        if rng.random() < 0.4:
+            V.append({core_})
+        N, nU = len(V), len(U)
+        Ul = sorted(U, key=str)
+        ctx.cat("SetCover:star-overlap")
     if rng.random() < 0.3:
         V = tuple(V)
     if set().union(*V) != U:
@@ -444,7 +460,9 @@ def do_NumberPartitioning(ctx, rng, w, bad, call):
         ctx.count("spin-input-decoded")
         dec = call("convert_solution", p.convert_solution, containers(rng, z, N), spin=True)
         exp = (T(s for s, zz in zip(S, z) if zz == 1), T(s for s, zz in zip(S, z) if zz != 1))
-        if tuple(dec) != exp:
+        # the two parts are collections of numbers: their internal order (which follows the order of a dict's keys) is
+        # not part of the decoding
+        if len(dec) != 2 or any(type(d_) is not T or sorted(d_) != sorted(e_) for d_, e_ in zip(dec, exp)):
             bad("convert_solution-wrong", "convert_solution(%r) = %r expected %r" % (z, dec, exp))
         zb = bits(i, N, False)
         for arg, sp in ((containers(rng, z, N), True), (dec, True), (containers(rng, zb, N), False)):
